@@ -139,6 +139,10 @@ pub fn soak(a: &Args) -> i32 {
     let first = e.exec(0, q);
     if !ok(&first) { note("first scan", &first, &mut bad); }
     let (mut done, mut differing) = (0u64, 0u64);
+    // at least `scans` scans, and enough of them to push the number of evictions past `min-evictions` (16-bit counters wrap at 65536)
+    let pages_now = std::fs::metadata(dir.join("db.axm")).map(|m| m.len() / 4096).unwrap_or(0);
+    let per_scan = pages_now.saturating_sub(cache as u64).max(1);
+    let scans = scans.max(a.num("min-evictions", 70000).div_ceil(per_scan)).min(40000);
     for i in 0..scans {
         let o = e.exec(0, q);
         done += 1;
@@ -146,8 +150,33 @@ pub fn soak(a: &Args) -> i32 {
     }
     let pages = std::fs::metadata(dir.join("db.axm")).map(|m| m.len() / 4096).unwrap_or(0);
     let _ = e.close();
+    // pressure: caches smaller than what one statement pins.  Such a statement may fail ("out of memory" - finding
+    // SmallCacheFailsStatements), but it must come back: no hang in the eviction sweep, no panic, and the database still answers.
+    let mut pressure_calls = 0u64;
+    for tiny in [1usize, 2, 3, 5, 6, 7, 8] {
+        let pdir = dir.join(format!("p{tiny}"));
+        let _ = std::fs::create_dir_all(&pdir);
+        let mut e = Eng::new();
+        e.timeout = std::time::Duration::from_secs(20);
+        let returned = |o: &eng::Out| !matches!(o, eng::Out::Panic(_) | eng::Out::Hang);
+        let o = e.create(&pdir.join("db.axm"), eng::cfg(4096, tiny, 2, 3, 2));
+        if !returned(&o) { note(&format!("cache {tiny}: create"), &o, &mut bad); continue; }
+        let o = e.exec(0, "CREATE TABLE a (id INT, v TEXT)");
+        if !returned(&o) { note(&format!("cache {tiny}: create table"), &o, &mut bad); continue; }
+        for i in 0..160 {
+            let o = e.exec(0, &format!("INSERT INTO a VALUES ({i}, '{}')", "z".repeat(200)));
+            pressure_calls += 1;
+            if !returned(&o) { note(&format!("cache {tiny}: insert {i}"), &o, &mut bad); break; }
+        }
+        if !e.dead {
+            let o = e.exec(0, "SELECT COUNT(*) FROM a");
+            pressure_calls += 1;
+            if !returned(&o) { note(&format!("cache {tiny}: count"), &o, &mut bad); }
+            let _ = e.close();
+        }
+    }
     let _ = std::fs::remove_dir_all(&dir);
     println!("{}", serde_json::json!({"kind": "soak", "scans": done, "differing": differing, "file_pages": pages, "cache_pages": cache,
-        "evictions_at_least": done * pages.saturating_sub(cache as u64), "first": first.json(), "bad": bad}));
+        "evictions_at_least": done * pages.saturating_sub(cache as u64), "pressure_calls": pressure_calls, "first": first.json(), "bad": bad}));
     0
 }
